@@ -20,7 +20,7 @@ var (
 	sigmaCore = []string{"a", "x=1", "1", "'q'", `"$v"`, "$(c)", "${v:-w}", "2>",
 		"!", "{", "}", "for", "in", "do", "done", "case", "esac", "if", "then", "elif", "else", "fi", "while", "until",
 		";", "&", "|", "&&", "||", ";;", "(", ")", ">", "<<E", "((1))", "\n", "#c", "'q"}
-	sigmaMin = []string{"a", "x=1", "{", "}", "if", "then", "fi", "for", "in", "do", "done", "case", "esac", ";", ";;", "|", "(", ")", ">", "\n"}
+	sigmaMin  = []string{"a", "x=1", "{", "}", "if", "then", "fi", "for", "in", "do", "done", "case", "esac", ";", ";;", "|", "(", ")", ">", "\n"}
 	sigmaTiny = []string{"a", "{", "}", "if", "then", "fi", "while", "do", "done", ";", "(", ")", "\n", "!", "&&", "<<E"}
 )
 
@@ -65,7 +65,7 @@ type countingReader struct {
 }
 
 func (c *countingReader) ReadRune() (rune, int, error) { c.reads++; return c.r.ReadRune() }
-func (c *countingReader) UnreadRune() error             { return c.r.UnreadRune() }
+func (c *countingReader) UnreadRune() error            { return c.r.UnreadRune() }
 
 type parseObs struct {
 	cmds     []ast.Command
